@@ -101,6 +101,33 @@ def run_job(job):
         top = [gen(2, top=True) for _ in range(nsub)]
         tree = [t[0] for t in top]
         objs = [t[1] for t in top]
+        # the documented single-callable form alg.graph(graph_func): graph_func returns the whole subject list and computes
+        # dependent values EAGERLY inside it (no nested lambda), so they are up to date only if the root function is
+        # called again after a drag / update
+        rootfunc = rng.random() < 0.35
+        eager = set()
+        if rootfunc:
+            mvids = [i for i, v in regs.items() if v[0] == 'mv']
+            if len(mvids) >= 2:
+                nodes, fns = [], []
+                for _ in range(rng.randint(1, 2)):
+                    a, b = rng.sample(mvids, 2)
+                    op = rng.choice(['rp', 'op', 'gp', 'add'])
+                    fn = (lambda xa=regs[a][1], xb=regs[b][1], op=op: K.apply_op(op, [xa, xb]))
+                    eager.add(id(fn))
+                    nodes.append({'t': 'expr', 'op': op, 'ids': [a, b]})
+                    fns.append(fn)
+                tree.append({'t': 'list', 'c': nodes})
+                objs.append(fns)
+
+        def force(o):
+            if callable(o) and id(o) in eager:
+                return o()
+            if isinstance(o, list):
+                return [force(x) for x in o]
+            if isinstance(o, tuple):
+                return tuple(force(x) for x in o)
+            return o
 
         def snapshot():
             out = []
@@ -137,7 +164,7 @@ def run_job(job):
         def base(step, eid):
             return {'id': eid, 'kind': 'widget', 'step': step, 'raised': '', 'tree': tree, 'payload': [], 'key2idx': [], 'signature': [],
                     'cayley': [], 'dp': [], 'dpids': [], 'dpi': [], 'dpi_expected': [], 'dragids': [], 'newpoints': [], 'mvs': snapshot(),
-                    'hascamera': False, 'camera': {'t': 'int', 'v': 0}, 'camid': 0}
+                    'hascamera': False, 'camera': {'t': 'int', 'v': 0}, 'camid': 0, 'rootfunc': rootfunc}
         eid = f"{job['prefix']}:{si}"
         try:
             ev = base('create', eid + '.c')
@@ -146,7 +173,7 @@ def run_job(job):
                 opts = {'lineWidth': 2}
                 if cam_id:
                     opts['camera'] = regs[cam_id][1]
-                w = alg.graph(*objs, **opts)
+                w = alg.graph(lambda: [force(o) for o in objs], **opts) if rootfunc else alg.graph(*objs, **opts)
                 if cam_id:
                     ev['hascamera'], ev['camera'], ev['camid'] = True, conv(w.options['camera']), cam_id
                 ev['payload'] = [conv(x) for x in w.subjects]
@@ -221,6 +248,8 @@ def run_job(job):
 
 def run_jobs(jobs, procs=16):
     import multiprocessing as mp
+    import kdriver as _K
+    jobs = _K.filter_buildable(jobs)
     if not jobs:
         return []
     with mp.get_context('fork').Pool(min(procs, len(jobs))) as pool:
